@@ -356,6 +356,80 @@ pub fn check_cli_history(h: &History, rec: &mut Recorder) -> Result<(), String> 
     Ok(())
 }
 
+/// Large first documents through the real binaries: the TOML rendering of the first
+/// document is larger than any buffer between xt and its standard output (8 KiB in
+/// std), and a refused second document (or input) follows. Standard output must
+/// still be nothing or the complete first document.
+pub fn check_cli_large(case: &J, rec: &mut Recorder) -> Result<(), String> {
+    use crate::cli::*;
+    let size = case["size"].as_u64().ok_or("bad case")? as usize;
+    let src = Fmt::from_name(case["src"].as_str().ok_or("bad case")?).ok_or("bad case")?;
+    let route = case["route"].as_str().ok_or("bad case")?.to_string();
+    let second = case["second"].as_str().ok_or("bad case")?.to_string();
+    // first document: a table of string entries, `size` bytes of values in lines of ~70 bytes
+    let n = size / 70 + 1;
+    let entries: Vec<String> = (0..n).map(|i| format!("\"k{:05}\":\"{}\"", i, "v".repeat(if i + 1 == n { size % 70 + 1 } else { 60 }))).collect();
+    let first = format!("{{{}}}", entries.join(","));
+    let second_doc = match second.as_str() {
+        "table" => "{\"b\":2}",
+        "null_inside" => "{\"b\":null}",
+        "scalar" => "17",
+        _ => "",
+    };
+    // JSON text is also YAML (flow style)
+    let (doc1, doc2) = match src {
+        Fmt::Yaml => (format!("--- {}\n", first), if second_doc.is_empty() { String::new() } else { format!("--- {}\n", second_doc) }),
+        _ => (format!("{}\n", first), if second_doc.is_empty() { String::new() } else { format!("{}\n", second_doc) }),
+    };
+    let alone = run_slice(doc1.as_bytes(), Some(src), Fmt::Toml);
+    if !alone.verdict.is_ok() {
+        return Err(format!("harness: the first document does not translate alone: {}", alone.verdict.brief()));
+    }
+    let expected = alone.out;
+    if second != "none" && expected.len() <= 8192 && size > 8300 {
+        return Err("harness: first document's TOML is not larger than 8 KiB".into());
+    }
+    let ext = if src == Fmt::Yaml { "yaml" } else { "json" };
+    let sc = Scratch::new("c08l");
+    let mut args: Vec<std::ffi::OsString> = vec!["-t".into(), "toml".into()];
+    let mut stdin = StdinSpec::Null;
+    match route.as_str() {
+        "one_file" => args.push(sc.file(&format!("in0.{}", ext), format!("{}{}", doc1, doc2).as_bytes()).into()),
+        "two_files" => {
+            args.push(sc.file(&format!("in0.{}", ext), doc1.as_bytes()).into());
+            if !doc2.is_empty() {
+                args.push(sc.file(&format!("in1.{}", ext), doc2.as_bytes()).into());
+            }
+        }
+        _ => {
+            args.push("-f".into());
+            args.push(ext.into());
+            stdin = StdinSpec::Bytes(format!("{}{}", doc1, doc2).into_bytes());
+        }
+    }
+    let all_ok = doc2.is_empty();
+    for bin in [Bin::Release, Bin::Debug] {
+        let r = run_xt(bin, &args, &sc.dir, stdin.clone(), StdoutSpec::Pipe, vec![]);
+        if r.timed_out {
+            return Err(format!("[{}] no result within the time limit", bin.name()));
+        }
+        let at = format!("xt -t toml, first document of {} TOML bytes followed by {} ({}, {}) [{}]", expected.len(), second, route, ext, bin.name());
+        let acceptable = r.stdout == expected || (!all_ok && r.stdout.is_empty());
+        if !acceptable {
+            let valid = std::str::from_utf8(&r.stdout).ok().map(|t| crate::rd_toml::read_doc(t).is_ok()).unwrap_or(false);
+            return Err(format!("{}: standard output has {} bytes ({}), neither empty nor the complete first document of {} bytes; it ends {:?}", at, r.stdout.len(), if valid { "a valid TOML document" } else { "not a valid TOML document" }, expected.len(), brief_bytes(&r.stdout[r.stdout.len().saturating_sub(40)..])));
+        }
+        let want = if all_ok { 0 } else { 1 };
+        if r.code != Some(want) {
+            return Err(format!("{}: expected exit {}, got {}", at, want, r.brief()));
+        }
+    }
+    rec.count(Some(hash_of(&case.to_string())));
+    rec.class(if expected.len() > 8192 { "cli_large:first_document_over_8k" } else { "cli_large:first_document_under_8k" });
+    rec.class(if all_ok { "cli_large:all_translated" } else { "cli_large:refused_after_large_document" });
+    Ok(())
+}
+
 pub fn check_history(h: &History, rec: &mut Recorder) -> Result<(), String> {
     let prepared = match prepare_history(h, rec) {
         Some(p) => p,
@@ -512,13 +586,29 @@ impl Check for C08 {
         ]
     }
     fn units(&self, tier: Tier) -> Vec<Unit> {
-        vec![Unit::gen("history", 16, tier.pick(12_000, 100_000)), Unit::gen("paths", 8, tier.pick(150, 1500)), Unit::gen("cli", 8, tier.pick(150, 2500))]
+        vec![Unit::gen("history", 16, tier.pick(12_000, 100_000)), Unit::gen("paths", 8, tier.pick(150, 1500)), Unit::gen("cli", 8, tier.pick(150, 2500)), Unit::enumerate("cli_large", 8)]
     }
     fn required_classes(&self, _tier: Tier) -> Vec<&'static str> {
-        vec!["accepted_document", "refusable_document", "second_document_or_input", "unspecified_document", "refusal_at_depth", "calls:2", "calls:3", "paths:null", "paths:oversized_int", "paths:nonroot_key_null", "short_writes", "toml_source_with_datetime", "cli:all_translated", "cli:refused", "cli:later_input_after_accepted_document"]
+        vec!["accepted_document", "refusable_document", "second_document_or_input", "unspecified_document", "refusal_at_depth", "calls:2", "calls:3", "paths:null", "paths:oversized_int", "paths:nonroot_key_null", "short_writes", "toml_source_with_datetime", "cli:all_translated", "cli:refused", "cli:later_input_after_accepted_document", "cli_large:first_document_over_8k", "cli_large:refused_after_large_document", "cli_large:all_translated"]
     }
     fn run_unit(&self, unit: &Unit, _shard: u32, seed: u64, _tier: Tier, rec: &mut Recorder) {
         match unit.name {
+            "cli_large" => {
+                // sizes around the 8 KiB and 64 KiB buffer and pipe sizes, and well beyond
+                let sizes = [4000usize, 8100, 8400, 9000, 16_500, 33_000, 66_000, 200_000];
+                let size = sizes[_shard as usize % sizes.len()];
+                for src in ["json", "yaml"] {
+                    for route in ["one_file", "two_files", "stdin"] {
+                        for second in ["none", "table", "null_inside", "scalar"] {
+                            let case = json!({"unit": "cli_large", "size": size, "src": src, "route": route, "second": second});
+                            if let Err(m) = check_cli_large(&case, rec) {
+                                rec.fail(m, case);
+                                return;
+                            }
+                        }
+                    }
+                }
+            }
             "history" => run_prop(rec, seed, unit.cases, history_strategy(), history_json, check_history),
             "cli" => run_prop(
                 rec,
@@ -575,6 +665,9 @@ impl Check for C08 {
         let mut rec = Recorder::default();
         if case["unit"].as_str() == Some("paths_tree") {
             return Err("paths_tree cases are re-reported as histories".into());
+        }
+        if case["unit"].as_str() == Some("cli_large") {
+            return check_cli_large(case, &mut rec);
         }
         if case["unit"].as_str() == Some("cli") {
             return check_cli_history(&history_from_json(case).ok_or("bad history")?, &mut rec);
